@@ -232,8 +232,16 @@ static void* ms_raiser_storm(void* a) {
   return NULL;
 }
 
+static void chan_diag(void) {
+  if (kind == 3 && mch) {
+    vp_note("multi channel at stranding: high=%llu low=%llu size=%u (inside %llu), lock counter=%d", (unsigned long long)mch->high, (unsigned long long)mch->low, mch->size,
+            (unsigned long long)(mch->high - mch->low), atomic_load(&mch->lock.counter));
+  }
+}
+
 static void* root(void* x) {
   (void)x;
+  fb_stranded_diag = chan_diag;
   const int trials = (int)vp_param("trials", 20);
   const char* sub = vp_cfg.sub;
   c_msgs = vp_counter("chan_messages_sent");
